@@ -595,7 +595,7 @@ fn gen_c10(rng: &mut Rng, tier: Tier, index: u64) -> Case {
     let elem = pick_elem(rng, 4);
     let mut case = base_case("C10", elem, rng);
     case.twin = true;
-    if rng.chance(if tier.thorough { 0.03 } else { 0.015 }) {
+    if rng.chance(if tier.thorough { 0.04 } else { 0.03 }) {
         // marathon history: several hundred distinct requests to one planner (whatever a planner does once its caches are
         // large - bounding, evicting, rehashing - only shows after a long history), then reference-checked calls on
         // earlier and on new transforms; the twin planner replays all of it
@@ -615,6 +615,12 @@ fn gen_c10(rng: &mut Rng, tier: Tier, index: u64) -> Case {
         let mut slot = 0u16;
         for (i, len) in lens.iter().enumerate() {
             ops.push(Op::Plan { planner: 0, len: *len, dir: if both && i % 2 == 1 { dir.opp() } else { dir }, via: false, slot });
+            slot += 1;
+        }
+        // second pass: ask again for lengths of the first pass (what comes back now depends on what the planner kept)
+        for _ in 0..60 + rng.below(120) {
+            let i = rng.below(lens.len() as u64) as usize;
+            ops.push(Op::Plan { planner: 0, len: lens[i], dir: if both && i % 2 == 1 { dir.opp() } else { dir }, via: false, slot });
             slot += 1;
         }
         for _ in 0..6 {
